@@ -815,6 +815,11 @@ class Registry:
         cs = State()
         cs.pc = st.pc  # shared: assumptions land in the caller
         for n in pnames:
+            if n not in bound and n.startswith("ghost_"):
+                # ghost state (a log of calls into an assumed library): never passed by the code, threaded from the caller's ghost parameter of the same name
+                if n not in st.vars:
+                    raise ContractDrift(f"{c.key}: ghost state {n} is not threaded through the caller (declare it as a ghost parameter of the caller's contract)")
+                bound[n] = st.vars[n]
             if n not in bound:
                 if n not in c.defaults:
                     raise ContractDrift(f"{c.key}: missing argument {n}")
@@ -1036,6 +1041,9 @@ class Registry:
         return v.found
 
     def write_back(self, eng, st, node, idx, pname, newval, self_expr):
+        if pname.startswith("ghost_"):
+            st.vars[pname] = newval
+            return
         is_method = self_expr is not None
         if is_method and idx == 0:
             target = self_expr
